@@ -55,4 +55,18 @@ PROPS = {
                 rule="every form with a memory operand x base registers with upper byte 00/01/7F/80/FF/5A/A5 x wrapping displacements x region edges; tagged memory makes the accessed location observable", assumptions=COMMON_ASSUME),
     "C20": dict(drivers=[step_cases("C20")], mc=[], must_cover=impl_rows(),
                 rule="every implemented form x code in on-chip RAM / DRAM x operand, stack, vector placement x 6 bus-controller settings with pairwise distinct per-cycle costs; only the charged state count is compared", assumptions=COMMON_ASSUME),
+    "C07": dict(drivers=[dict(name="sweep", args=["decode-sweep", "--tier", "{tier}", "--forms", "{forms}", "--out", "{out}", "--threads", "{threads}", "--seed", "{seed}"])],
+                mc=[], exhaustive=True,
+                rule="ALL 65,536 first instruction words (x2 register files / placements), every multi-word prefix (0100, 0140, 01F0, 01C0, 01D0, 78r0, 7Cr0-7Faa, 6A/6B abs24, 58c0, 7B5C/7BD4) x second words (table patterns, their single-bit neighbours, random; all 65,536 for the main prefixes in thorough) and third words for the 78r0 chains; outcome class, consumed length and full post state compared with the independent decode table", assumptions=COMMON_ASSUME),
+    "C14": dict(drivers=[dict(name="mes", args=["mes-cases", "--tier", "{tier}", "--out", "{out}", "--seed", "{seed}"])], mc=[],
+                rule="TRAPA #0: write with buffers in on-chip RAM and DRAM, lengths 0-4096 (boundary + random), valid UTF-8 contents incl. NUL, newline, backslash, 2/3/4-byte sequences; console bytes captured by redirecting fd 1 around the step, messages through the capture hook; set_handler for ALL vector numbers 0-255 (+ large values) x handler addresses; all other call numbers 0-255 + aliases + random", assumptions=COMMON_ASSUME),
+    "C15": dict(profiles=["release", "relchk"],
+                drivers=[dict(name="mes_release", profile="release", args=["mes-cases", "--tier", "{tier}", "--out", "{out}", "--seed", "{seed}", "--adversarial", "1"]),
+                         dict(name="mes_relchk", profile="relchk", args=["mes-cases", "--tier", "{tier}", "--out", "{out}", "--seed", "{seed}", "--adversarial", "1"]),
+                         dict(name="sweep_release", profile="release", args=["panic-sweep", "--tier", "{tier}", "--forms", "{forms}", "--out", "{out}", "--threads", "{threads}", "--seed", "{seed}"]),
+                         dict(name="sweep_relchk", profile="relchk", args=["panic-sweep", "--tier", "{tier}", "--forms", "{forms}", "--out", "{out}", "--threads", "{threads}", "--seed", "{seed}"])],
+                mc=[],
+                rule="all first words + multi-word prefixes x adversarial register files (0,1,2,3,FFFFFFFF,region edges +-4, odd values, 00FFFFFF, 01000000) x CCR 00/FF x 4 bus-controller settings x PC in every mapped region incl. its last 2/4/6 bytes and at unmapped addresses, in BOTH build profiles (release; release+overflow-checks+debug-assertions); the spec's outcome alphabet is {ok, err}: a recorded panic matches no action", assumptions=COMMON_ASSUME),
+    "C19": dict(drivers=[dict(name="cost", args=["cost-table", "--out", "{out}", "--seed", "{seed}"])], mc=[], exhaustive=True,
+                rule="exhaustive per-area setting space (8-/16-bit x 2-/3-state x 4 wait values x 8 DRAM selects; areas 3-5 with DRAM select 0/1 only) x 6 cycle kinds x counts 1-5 x both ends + interior of all 8 areas + on-chip RAM ends, the OTHER areas' bits filled all-0 / all-1 / two random ways; on-chip I/O register addresses excluded; each evaluation of the real calc_state / calc_state_with_addr is one event validated against H8Cost.CycleCost", assumptions=COMMON_ASSUME),
 }
